@@ -202,13 +202,16 @@ def run_shard(spec, ctx):
     for _ in range(int(spec["n"])):
         a, b = T(), T()
         arr6 = rng.normal(size=6)
-        k = float(rng.uniform(0.5, 3))
+        # identity elements are where 'return self' shortcuts hide: 0 for +/-, 1 for * and /
+        k = gen.pick(rng, [float(rng.uniform(0.5, 3)), float(rng.uniform(0.5, 3)), 1, 1.0, -1.0])
+        k0 = gen.pick(rng, [float(rng.uniform(0.5, 3)), 0, 0.0, 0, 1])
         M4 = se3.taa_to_T(gen.taa(rng, 10.0, ["generic"]))
         d = "tm"
         for name, fn, ops in [
             ("tm@tm", lambda x, y: x @ y, [a, b]), ("tm*tm", lambda x, y: x * y, [a, b]), ("tm+tm", lambda x, y: x + y, [a, b]),
             ("tm-tm", lambda x, y: x - y, [a, b]), ("tm//tm", lambda x, y: x // y, [a, b]), ("tm@nd", lambda x, y: x @ y, [a, M4]),
             ("tm+nd6", lambda x, y: x + y, [a, arr6]), ("tm-nd6", lambda x, y: x - y, [a, arr6]), ("tm*k", lambda x: x * k, [a]),
+            ("tm+k", lambda x: x + k0, [a]), ("tm-k", lambda x: x - k0, [a]), ("tm@I", lambda x, y: x @ y, [a, tm()]), ("I@tm", lambda x, y: y @ x, [a, tm()]),
             ("k*tm", lambda x: k * x, [a]), ("tm/k", lambda x: x / k, [a]), ("tm//k", lambda x: x // k, [a]), ("abs(tm)", lambda x: abs(x), [a]),
             ("tm.inv", lambda x: x.inv(), [a]), ("tm.copy", lambda x: x.copy(), [a]), ("tm(tm)", lambda x: tm(x), [a]),
             ("tm.T", lambda x: x.T(), [a]), ("tm.gTM", lambda x: x.gTM(), [a]), ("tm.gTAA", lambda x: x.gTAA(), [a]), ("tm.gRot", lambda x: x.gRot(), [a]),
@@ -221,8 +224,9 @@ def run_shard(spec, ctx):
             s1, s2 = S(cls), S(cls)
             for name, fn, ops in [
                 (cn + "+obj", lambda x, y: x + y, [s1, s2]), (cn + "-obj", lambda x, y: x - y, [s1, s2]), (cn + "+nd6", lambda x, y: x + y, [s1, arr6]),
-                (cn + "-nd6", lambda x, y: x - y, [s1, arr6]), ("nd6-" + cn, lambda x, y: y - x, [s1, arr6]), (cn + "+k", lambda x: x + k, [s1]),
-                (cn + "-k", lambda x: x - k, [s1]), ("k-" + cn, lambda x: k - x, [s1]), (cn + "*k", lambda x: x * k, [s1]), ("k*" + cn, lambda x: k * x, [s1]),
+                (cn + "-nd6", lambda x, y: x - y, [s1, arr6]), ("nd6-" + cn, lambda x, y: y - x, [s1, arr6]), (cn + "+k", lambda x: x + k0, [s1]),
+                ("k+" + cn, lambda x: k0 + x, [s1]), ("sum([" + cn + "])", lambda x: sum([x]), [s1]), ("sum([" + cn + "," + cn + "])", lambda x, y: sum([x, y]), [s1, S(cls)]),
+                (cn + "-k", lambda x: x - k0, [s1]), ("k-" + cn, lambda x: k0 - x, [s1]), (cn + "*k", lambda x: x * k, [s1]), ("k*" + cn, lambda x: k * x, [s1]),
                 (cn + "/k", lambda x: x / k, [s1]), (cn + "//k", lambda x: x // k, [s1]), ("abs(" + cn + ")", lambda x: abs(x), [s1]),
                 (cn + ".copy", lambda x: x.copy(), [s1]), (cn + ".getData", lambda x: x.getData(), [s1]), (cn + ".flatten", lambda x: x.flatten(), [s1]),
                 (cn + ".reshape", lambda x: x.reshape((6,)), [s1]), (cn + ".cross", lambda x, y: x.cross(y), [s1, s2]), (cn + ".dot", lambda x, y: x.dot(y), [s1, s2]),
